@@ -135,6 +135,9 @@ def parseSeg (s : String) : Option SourceSegment :=
   | _ => none
 
 def handle : List String → String
+  | ["consts"] =>
+    -- the extracted constants the harness derives its boundary values from
+    s!"{Gen.CHECKPOINT_PERIOD} {Gen.DEFAULT_DOCSTORE_BLOCKSIZE} {Gen.DOCSTORE_CACHE_CAPACITY} {Gen.STORE_INDEX_ENTRY_COST} {Gen.STACK_MIN_BLOCKS} {Gen.DOCSTORE_FOOTER_LEN}"
   | ["vintenc", n] =>
     match n.toNat? with
     | some n => hexOfBytes (vintEnc n)
